@@ -157,6 +157,76 @@ theorem honest_block_hashes_accepted {E : Env H} {cfg : Cfg} (hstrict : StrictPr
       (hashes := hs) (leaves := []) (new := hs) (by simp [mergeLeaves]) hok
     rw [this]
 
+/-- **the data-block stage accepts the genuine block**: on a node whose block hash tree for share `shnum` is a closed
+    partial copy of the published tree `T` and already holds the uncle chain of segment `segnum` (the block-hash stage
+    has run), a block of the expected length whose tagged hash is the published leaf passes `check_block` and is
+    handed to the fetcher -/
+theorem honest_block_accepted {E : Env H} {cfg : Cfg} (hstrict : StrictPresence E.ops cfg)
+    (pick : List Nat → Nat) (shnum segnum : Nat) (v : View H) (nd : Node H) {T : Tree H} {u : UEB H} {sz : Sizes}
+    (hk : nd.known = some (u, sz)) (hT : Genuine E.ops T) (hlen : (nd.blockTree shnum sz.numSegs).length = T.length)
+    (hag : Agree (nd.blockTree shnum sz.numSegs) T) (hcl : Closed (nd.blockTree shnum sz.numSegs))
+    (hL : firstLeafNum sz.numSegs + segnum < (nd.blockTree shnum sz.numSegs).length)
+    (hfull : ∀ i ∈ neededFor (firstLeafNum sz.numSegs + segnum), get (nd.blockTree shnum sz.numSegs) i ≠ none)
+    (hsize : ¬ (v.block.isEmpty ∨
+      v.block.length ≠ (if segnum + 1 = sz.numSegs then sz.tailBlockSize else sz.blockSize)))
+    (hleaf : get T (firstLeafNum sz.numSegs + segnum) = some (E.tagged .block v.block)) :
+    (stageData E cfg pick shnum segnum v nd).1 = some (.block v.block) := by
+  unfold stageData
+  rw [hk]
+  simp only
+  rw [if_neg hsize]
+  obtain ⟨st1, hok⟩ := tryBody_complete (ops := E.ops.withCfg cfg) hstrict ⟨hT.odd, hT.full, hT.node⟩ hlen hag hcl
+    (firstLeafNum sz.numSegs + segnum) hL pick [(firstLeafNum sz.numSegs + segnum, E.tagged .block v.block)]
+    (by intro i w hm; simp at hm; rw [hm.1, hm.2]; exact hleaf)
+    (by intro i w hm; simp at hm; exact Or.inr hm.1)
+    (by intro i hi hnone; exact absurd hnone (hfull i hi))
+    ⟨E.tagged .block v.block, by simp⟩
+  have := setHashes_ok_of (ops := E.ops) (cfg := cfg) (pick := pick) (first := firstLeafNum sz.numSegs)
+    (t := nd.blockTree shnum sz.numSegs) (hashes := []) (leaves := [(segnum, E.tagged .block v.block)])
+    (new := [(firstLeafNum sz.numSegs + segnum, E.tagged .block v.block)]) (by simp [mergeLeaves]) hok
+  rw [this]
+
+/-- **the share-hash stage accepts the genuine chain**: on a node whose share hash tree is a closed partial copy of
+    the published tree `T`, a share whose share hash chain (as the dict `process_share_hashes` builds) consists of
+    published nodes on the uncle chain of leaf `shnum`, the leaf included, and covers that chain, passes
+    `_satisfy_share_hash_tree` -/
+theorem honest_share_hashes_accepted {E : Env H} {cfg : Cfg} (hstrict : StrictPresence E.ops cfg)
+    (pick : List Nat → Nat) (cap : Cap H) (shnum : Nat) (v : View H) (nd : Node H) {T : Tree H}
+    (hT : Genuine E.ops T) (hlen : nd.shareTree.length = T.length)
+    (hag : Agree nd.shareTree T) (hcl : Closed nd.shareTree)
+    (hL : firstLeafNum cap.n + shnum < nd.shareTree.length)
+    (hgen : ∀ i w, (i, w) ∈ dictOf v.shareHashes → get T i = some w)
+    (hkeys : ∀ i w, (i, w) ∈ dictOf v.shareHashes → i ∈ neededFor (firstLeafNum cap.n + shnum) ∨ i = firstLeafNum cap.n + shnum)
+    (hcov : ∀ i ∈ neededFor (firstLeafNum cap.n + shnum), ∃ w, (i, w) ∈ dictOf v.shareHashes)
+    (hleaf : ∃ w, (firstLeafNum cap.n + shnum, w) ∈ dictOf v.shareHashes) :
+    (stageShareTree E cfg pick cap shnum v nd).1 = none := by
+  unfold stageShareTree
+  rw [if_neg (by omega)]
+  split
+  · rfl
+  · have hne : ¬ (v.shareHashes.isEmpty = true) := by
+      intro he
+      have : v.shareHashes = [] := List.isEmpty_iff.mp he
+      obtain ⟨w, hw⟩ := hleaf
+      rw [this] at hw
+      simp [dictOf] at hw
+    rw [if_neg hne]
+    simp only
+    have hany : ¬ ((dictOf v.shareHashes).any (fun e => decide (e.1 ≥ nd.shareTree.length)) = true) := by
+      intro ha
+      obtain ⟨e, he, hge⟩ := List.any_eq_true.mp ha
+      have hge' : nd.shareTree.length ≤ e.1 := by simpa using hge
+      have := hgen e.1 e.2 he
+      rw [get_of_ge (by rw [← hlen]; exact hge')] at this
+      cases this
+    rw [if_neg hany]
+    obtain ⟨st1, hok⟩ := tryBody_complete (ops := E.ops.withCfg cfg) hstrict ⟨hT.odd, hT.full, hT.node⟩ hlen hag hcl
+      (firstLeafNum cap.n + shnum) hL pick (dictOf v.shareHashes) hgen hkeys
+      (fun i hi _ => hcov i hi) hleaf
+    have := setHashes_ok_of (ops := E.ops) (cfg := cfg) (pick := pick) (first := firstLeafNum cap.n) (t := nd.shareTree)
+      (hashes := dictOf v.shareHashes) (leaves := []) (new := dictOf v.shareHashes) (by simp [mergeLeaves]) hok
+    rw [this]
+
 omit [DecidableEq H] in
 /-- a freshly seeded tree (only the root stored) is closed -/
 theorem seed_closed (n : Nat) (r : H) : Closed (seed (newTree H n) r) := by
